@@ -609,7 +609,7 @@ pub proof fn lemma_ok_stream_prefixes_mono(s: Seq<u8>, j: nat, k: nat)
 /// ok_prefixes grows by one when the next record has a store-sized prefix
 pub proof fn lemma_ok_prefixes_snoc(s: Seq<u8>, k: nat)
     requires scan(s, k).1 == k, ok_prefixes(s, k), 0 <= scan(s, k).0 <= s.len(),
-        ({ let t = s.skip(scan(s, k).0); vlen(t) is Some ==> (vlen(t).unwrap() <= 10 && vval(t) < 0x1_0000_0000) }),
+        store_len(s.skip(scan(s, k).0)),
     ensures ok_prefixes(s, k + 1)
     decreases k
 {
@@ -639,7 +639,7 @@ pub proof fn lemma_frame_first_rec(s: Seq<u8>, body: Seq<u8>)
         s.take((enc(body.len() as nat).len() + body.len()) as int) == enc(body.len() as nat).add(body),
     ensures first_rec(s) == Some((enc(body.len() as nat).len() + body.len()) as int),
         vlen(s) == Some(enc(body.len() as nat).len() as int), vval(s) == body.len(),
-        vlen(s).unwrap() <= 10,
+        vlen(s).unwrap() <= 10, store_len(s),
 {
     let n = body.len() as nat;
     let f = enc(n).len() + n;
@@ -955,6 +955,128 @@ pub proof fn lemma_reopen(m: LogInnerManager)
     lemma_records_then_zeros(suffix, rest);
     assert(rest <= 0xffff);
     assert(scan(suffix, 0xffff) == scan(suffix, rest));
+}
+
+
+/// the records of a well-formed log are what FileMessageReader expects (canonical 32-bit length prefixes seen through its 10-byte window)
+pub proof fn lemma_ok_prefixes_store_stream(s: Seq<u8>, k: nat)
+    requires ok_prefixes(s, k), has_records(s, k)
+    ensures store_stream(s, k)
+    decreases k
+{
+    if k > 0 {
+        lemma_records_step(s, (k - 1) as nat);
+        let n = first_rec(s).unwrap();
+        assert(vlen(s) is Some);
+        assert(s.skip(0) =~= s);
+        lemma_window_prefix(s, 0);
+        lemma_ok_prefixes_store_stream(s.skip(n), (k - 1) as nat);
+    }
+}
+
+
+// ------------------------------------------------------------------ reading entries back (read_records)
+/// framed bytes (length prefix + body) of record number j (0-based) of a record stream
+pub open spec fn frame_at(s: Seq<u8>, j: nat) -> Seq<u8> { s.subrange(scan(s, j).0, scan(s, j + 1).0) }
+/// THE message whose length-prefixed image is f (unique: shims/protobuf.rs)
+pub open spec fn frame_msg(f: Seq<u8>) -> LogRecord { choose|m: LogRecord| pb_frame(m) == f }
+
+/// what BytesReader::read_message returns on a complete record is the message of that record
+pub proof fn lemma_read_message_is_frame(m: LogRecord, v: Seq<u8>)
+    requires vlen(v) is Some, v.len() == vlen(v).unwrap() + vval(v), pb_frame(m).len() <= v.len(), v.take(pb_frame(m).len() as int) == pb_frame(m)
+    ensures pb_frame(m) == v, frame_msg(v) == m
+{
+    let l = m.pb_bytes().len() as nat;
+    let pf = pb_frame(m);
+    let rest = m.pb_bytes().add(v.skip(pf.len() as int));
+    assert(v =~= enc(l).add(rest)) by {
+        assert(v.take(pf.len() as int).add(v.skip(pf.len() as int)) =~= v);
+        assert(enc(l).add(m.pb_bytes()).add(v.skip(pf.len() as int)) =~= enc(l).add(rest));
+    }
+    lemma_dec_enc(l, rest);
+    assert(pf.len() == v.len());
+    assert(v.take(v.len() as int) =~= v);
+    let w = frame_msg(v);
+    assert(pb_frame(w) == v);
+    assert(v.take(pb_frame(w).len() as int) =~= v);
+    axiom_pb_frame_unique(m, w, v);
+}
+
+/// record j of a stream is the first record of the stream behind the first j records
+pub proof fn lemma_frame_at(s: Seq<u8>, j: nat)
+    requires scan(s, j + 1).1 == j + 1
+    ensures scan(s, j).1 == j, first_rec(s.skip(scan(s, j).0)) is Some,
+        scan(s, j + 1).0 == scan(s, j).0 + first_rec(s.skip(scan(s, j).0)).unwrap(),
+        frame_at(s, j) == s.skip(scan(s, j).0).take(first_rec(s.skip(scan(s, j).0)).unwrap()),
+{
+    lemma_scan_mono(s, j, j + 1);
+    lemma_scan_bounds(s, j);
+    lemma_scan_split(s, j, 1);
+    let t = s.skip(scan(s, j).0);
+    assert(scan(t, 1).1 == 1);
+    match first_rec(t) {
+        Some(n) => { lemma_first_rec_bounds(t); assert(scan(t.skip(n), 0) == (0int, 0nat)); assert(frame_at(s, j) =~= t.take(n)); },
+        None => { assert(scan(t, 1) == (0int, 0nat)); }
+    }
+}
+
+
+/// everything read_records needs to know about the file before it starts reading entries a..b from index entry p
+pub proof fn lemma_read_setup(o: LogInnerManager, a: u64, b: u64, p: int)
+    requires o.wf(), o.start_index <= a, a < b, b <= o.start_index + o.msg_count, 0 <= p < o.indexs@.len(), o.indexs@[p].log_index <= a
+    ensures ({
+        let s0 = o.recs();
+        let cts = o.data_file.contents();
+        let ix = o.indexs@;
+        let fi = ix[p].file_index as int;
+        let nn = (a - ix[p].log_index) as nat;
+        let aj = (a - o.start_index) as nat;
+        let cnt = (b - a) as nat;
+        let rest = cts.skip(fi);
+        let from = s0.skip(scan(s0, aj).0);
+        &&& 4096 <= fi <= cts.len()
+        &&& has_records(rest, (nn + 1) as nat) && store_stream(rest, (nn + 1) as nat)
+        &&& fi + off_after(rest, nn) == 4096 + scan(s0, aj).0
+        &&& 0 <= scan(s0, aj).0 && 4096 + scan(s0, aj).0 <= cts.len()
+        &&& from == cts.skip(4096 + scan(s0, aj).0)
+        &&& ok_stream(from) && terminated(from) && scan(from, cnt).1 == cnt
+    })
+{
+    let s0 = o.recs();
+    let cts = o.data_file.contents();
+    let ix = o.indexs@;
+    let k0 = o.msg_count as nat;
+    let jj = (ix[p].log_index - o.start_index) as nat;
+    let fi = ix[p].file_index as int;
+    let nn = (a - ix[p].log_index) as nat;
+    let aj = (a - o.start_index) as nat;
+    let cnt = (b - a) as nat;
+    let rest = cts.skip(fi);
+    let from = s0.skip(scan(s0, aj).0);
+    lemma_scan_mono(s0, jj, k0);
+    lemma_scan_bounds(s0, jj);
+    assert(fi - 4096 == scan(s0, jj).0);
+    assert(rest =~= s0.skip(scan(s0, jj).0));
+    lemma_scan_mono(s0, (jj + nn + 1) as nat, k0);
+    lemma_scan_split(s0, jj, (nn + 1) as nat);
+    lemma_ok_stream_prefixes_mono(s0, (jj + nn + 1) as nat, k0);
+    lemma_ok_prefixes_suffix(s0, jj, (nn + 1) as nat);
+    lemma_ok_prefixes_store_stream(rest, (nn + 1) as nat);
+    lemma_scan_mono(s0, (jj + nn) as nat, k0);
+    lemma_scan_split(s0, jj, nn);
+    assert(jj + nn == aj);
+    lemma_scan_mono(s0, aj, k0);
+    lemma_scan_bounds(s0, aj);
+    let restk = (k0 - aj) as nat;
+    assert(aj + restk == k0);
+    lemma_ok_prefixes_suffix(s0, aj, restk);
+    lemma_scan_split(s0, aj, restk);
+    assert forall|i: int| scan(from, restk).0 <= i < from.len() implies from[i] == 0u8 by {
+        assert(cts[i + 4096 + scan(s0, aj).0] == 0u8);
+    }
+    lemma_records_then_zeros(from, restk);
+    lemma_scan_mono(from, cnt, restk);
+    assert(from =~= cts.skip(4096 + scan(s0, aj).0));
 }
 
 } // verus!
